@@ -21,7 +21,7 @@ CASE_TIMEOUT = 600
 NPROC = 8
 RULE = ('each case = (grid: 3x3 or 4x3 base points with list or tuple must-include values, linear or log scale; pool size in {4,8,16}; fault: kill immediately before bookkeeping '
         'event j of study case c / of a worker\'s j-th log append / of the parent\'s j-th event, or a subset of cases raising on the first run, or no fault), optionally a second run that is interrupted again (kill or raising cases), followed by a restart on the same '
-        'directory; non-trivial = the fault was actually delivered (kill record written / injected failures executed) and the restart ran; kill points that are never reached are not decisive')
+        'directory in a new interpreter (raising cases: also inside the same interpreter); non-trivial = the fault was actually delivered (kill record written / injected failures executed) and the restart ran; kill points that are never reached are not decisive')
 ASSUMPTIONS = ['the reference result of a case is determined by its grid point (the study function returns its inputs), so the uninterrupted run is known in closed form and verified by the no-fault cases',
                'SIGKILL of the whole process group models the interruption; power-loss style torn writes inside a single file are not modelled (only event boundaries)']
 
@@ -38,9 +38,9 @@ def gen_cases(tier, seed):
              {'nx': 3, 'ny': 3, 'mi_x': [], 'mi_y': [], 'tuple_mi': False, 'log': True, 'xlim': [-2.4559319556497243, 0.6931471805599453]}]
     k = 0
 
-    def add(grid, procs, kill=None, fail=None, second=None):
+    def add(grid, procs, kill=None, fail=None, second=None, inprocess=False):
         nonlocal k
-        cases.append({'grid': grid, 'procs': procs, 'kill': kill, 'fail': fail or [], 'second': second, 'id': k})
+        cases.append({'grid': grid, 'procs': procs, 'kill': kill, 'fail': fail or [], 'second': second, 'inprocess': inprocess, 'id': k})
         k += 1
     for gi, g in enumerate(grids):
         add(g, 4)                                            # no fault: reference + plain restart of a completed study
@@ -60,6 +60,8 @@ def gen_cases(tier, seed):
             add(g, 4, fail=fail)
         add(grids[1], 8, fail=[2, 7])
         add(grids[4], 4, fail=[1, 5])
+        add(grids[0], 4, fail=[2, 6], inprocess=True)
+        add(grids[3], 8, fail=[0, 5, 9], inprocess=True)
         add(grids[4], 4, kill='4:2')
         add(grids[5], 4, fail=[0, 7])
         # three-run histories: cases fail (or the study is killed) in run 1, some complete in an interrupted run 2, run 3 finishes the study
@@ -83,6 +85,8 @@ def gen_cases(tier, seed):
             for _ in range(8):
                 nf = int(rng.integers(1, 5))
                 add(g, int(rng.choice([4, 8, 16])), fail=sorted(int(x) for x in rng.choice(ncase, nf, replace=False)))
+            for _ in range(4):
+                add(g, int(rng.choice([4, 8])), fail=sorted(int(x) for x in rng.choice(ncase, int(rng.integers(1, 4)), replace=False)), inprocess=True)
             for _ in range(10):
                 f1 = sorted(int(x) for x in rng.choice(ncase, int(rng.integers(2, 5)), replace=False))
                 if rng.random() < 0.5:
@@ -153,6 +157,28 @@ def eval_case(c):
         ref = grid_reference(c['grid'])
         by_xy = {(round(v['x'], 12), round(v['y'], 12)): n for n, v in ref.items()}
         spec = {'mode': 'fresh', 'study': study, 'journal': journal, 'kill': c['kill'], 'fail': c['fail'], 'procs': c['procs'], 'grid': c['grid']}
+        if c.get('inprocess'):
+            # interrupted run (raising cases) and restart inside ONE interpreter with the same pool size
+            rc, out, err, to = run_driver(dict(spec, inprocess_restart=True), tmp)
+            cnt['studies_run'] += 2
+            if to:
+                return {'status': 'inconclusive', 'nontrivial': False, 'violations': [], 'obs': {'note': 'in-process restart watchdog'}, 'counters': cnt}
+            cnt['restarts_checked'] += 1
+            if rc != 0:
+                tail = [ln for ln in err.strip().splitlines() if ln.strip()][-1:] or ['']
+                V(f'restart-raises-{tail[0].split(":")[0].strip()}', f'in-process restart raised: {tail[0][:200]}', stderr=err[-600:])
+            elif 'RESULTS null' in out or 'RESULTS' not in out:
+                V('restart-returns-none', f'in-process restart (second multiprocessing_run call in the same interpreter) returned None / no results (stderr {err[-200:]!r})')
+            else:
+                check_results(json.loads(out.split('RESULTS ', 1)[1].splitlines()[0]), ref, by_xy, set(), V, 'in-process restart')
+                counts = exec_counts(journal)
+                for n, v in ref.items():
+                    key = (round(v['x'], 12), round(v['y'], 12))
+                    want = 2 if n in set(c['fail']) else 1
+                    if counts.get(key, 0) != want:
+                        V('completed-case-executed-again' if counts.get(key, 0) > want else 'case-never-executed', f'case {n} was executed {counts.get(key, 0)} times over the interrupted run and its in-process restart (expected {want})')
+                        break
+            return {'status': 'violated' if viol else 'held', 'nontrivial': True, 'violations': viol[:6], 'obs': {'inprocess_restart_rc': rc}, 'counters': cnt}
         rc, out, err, to = run_driver(spec, tmp)
         cnt['studies_run'] += 1
         if to:
